@@ -5,6 +5,9 @@ import asyncio.base_events
 import asyncio.events
 import heapq
 import threading
+import time as _time
+
+from vf import vsched as _vs
 
 EPOCH = float(2 ** 20)
 STATS = {'runs': 0, 'iterations': 0}
@@ -77,7 +80,12 @@ class VLoop(asyncio.base_events.BaseEventLoop):
         done = 0
         try:
             while done < n and self.busy():
-                self._run_once()
+                _vs.BUSY['t'] = _time.monotonic()
+                _vs.BUSY['inside'] = True
+                try:
+                    self._run_once()
+                finally:
+                    _vs.BUSY['inside'] = False
                 self.iterations += 1
                 done += 1
                 if self.iterations > self.max_iterations:
